@@ -3,6 +3,7 @@ package props
 import (
 	"bytes"
 	"encoding/json"
+	"fmt"
 	"strings"
 	"testing"
 	"unicode/utf8"
@@ -30,10 +31,16 @@ func genCandidate(r vlib.Rnd) *vlib.Project {
 		return vlib.SingleFile(genSoup(r, 10))
 	case 4:
 		if genModelDoc != nil {
+			if genModelStructured != nil && vlib.Chance(r, 1, 2) {
+				return genModelStructured(r) // the same, with directives moved into MACRO + PASTE and INCLUDE files
+			}
 			return genModelDoc(r)
 		}
 		fallthrough
 	case 5:
+		if vlib.Chance(r, 1, 2) {
+			return vlib.SingleFile(genAllOfFamily(r))
+		}
 		return vlib.SingleFile(genTagSoup(r))
 	case 6:
 		// a synthetic seed as it is or lightly mutated (shapes the repo's fixtures do not contain)
@@ -50,6 +57,7 @@ func genCandidate(r vlib.Rnd) *vlib.Project {
 
 // genModelDoc is installed by the model renderer (model_test.go) when present.
 var genModelDoc func(r vlib.Rnd) *vlib.Project
+var genModelStructured func(r vlib.Rnd) *vlib.Project
 
 func errClass(msg string) string {
 	return vlib.MsgClass(strings.NewReplacer("\"", "", "'", "").Replace(quotedRe.ReplaceAllString(msg, "_")))
@@ -151,6 +159,54 @@ var c04Stream = &vlib.Check{
 var c04Corpus = &vlib.Check{Prop: "C04", Name: "corpus", Oracle: c04Oracle, Classify: acceptedClassify}
 
 func init() { vlib.Register(c04Stream, c04Corpus, c05Stream, c05Corpus) }
+
+// genAllOfFamily: object types written with the rules an object literal may carry, and types inheriting from them through
+// allOf (one parent or a list, chains), used by a response, a request and a Path.  Whatever the builder accepts of these
+// must serialise.
+func genAllOfFamily(r vlib.Rnd) []byte {
+	var sb strings.Builder
+	sb.WriteString("JSIGHT 0.3\n\n")
+	n := 2 + r.Intn(4)
+	rules := []string{"", "", "type: \"any\"", "type: \"object\"", "additionalProperties: true", "additionalProperties: \"string\"", "nullable: true", "additionalProperties: \"@t0\"", "type: \"mixed\""}
+	for i := 0; i < n; i++ {
+		var rr []string
+		if i > 0 && vlib.Chance(r, 3, 4) {
+			k := 1 + r.Intn(2)
+			var ps []string
+			seen := map[int]bool{}
+			for len(ps) < k {
+				j := r.Intn(i)
+				if seen[j] {
+					break
+				}
+				seen[j] = true
+				ps = append(ps, fmt.Sprintf("\"@t%d\"", j))
+			}
+			if len(ps) == 1 && vlib.Chance(r, 1, 2) {
+				rr = append(rr, "allOf: "+ps[0])
+			} else {
+				rr = append(rr, "allOf: ["+strings.Join(ps, ", ")+"]")
+			}
+		}
+		if x := vlib.Pick(r, rules); x != "" {
+			rr = append(rr, x)
+		}
+		fmt.Fprintf(&sb, "TYPE @t%d\n  {", i)
+		if len(rr) > 0 {
+			fmt.Fprintf(&sb, " // {%s}", strings.Join(rr, ", "))
+		}
+		sb.WriteString("\n")
+		if !vlib.Chance(r, 1, 3) {
+			fmt.Fprintf(&sb, "    \"p%d\": %s\n", i, vlib.Pick(r, []string{"1", "\"s\"", "[1]", "{}", fmt.Sprintf("@t%d", r.Intn(n))}))
+		}
+		sb.WriteString("  }\n\n")
+	}
+	fmt.Fprintf(&sb, "POST /a/{id}\n  Request @t%d\n  200 @t%d\n  404 [@t%d]\n", r.Intn(n), n-1, r.Intn(n))
+	if vlib.Chance(r, 1, 3) {
+		fmt.Fprintf(&sb, "  Path\n    { // {allOf: \"@t%d\"}\n      \"id\": 1\n    }\n", r.Intn(n))
+	}
+	return []byte(sb.String())
+}
 
 func allSynthSeeds() []string {
 	var out []string
